@@ -122,7 +122,11 @@ T_C12_NoBuyExpired == [][NotReset => C12_NoBuyExpired_Step]_tvars
 T_C12_ExpirationAsRequested == [][NotReset => C12_ExpirationAsRequested_Step]_tvars
 T_C08_Authorised == [][NotReset => C08_Authorised_Step]_tvars
 T_C08_Footprint == [][NotReset => C08_Footprint_Step]_tvars
+T_C08_Effect == [][NotReset => C08_Effect_Step]_tvars
 T_C08_SealedStaysSealed == [][NotReset => C08_SealedStaysSealed_Step]_tvars
+T_C11_CriteriaAsSet == [][NotReset => C11_CriteriaAsSet_Step]_tvars
+T_C13_ChainsAsSet == [][NotReset => C13_ChainsAsSet_Step]_tvars
+T_C18_ParamsAsSet == [][NotReset => C18_ParamsAsSet_Step]_tvars
 T_C13_AllowedSource == [][NotReset => C13_AllowedSource_Step]_tvars
 T_C13_BindingPermanent == [][NotReset => C13_BindingPermanent_Step]_tvars
 T_C13_ReceiveIntoBound == [][NotReset => C13_ReceiveIntoBound_Step]_tvars
